@@ -32,15 +32,19 @@ MAX_ENUM = 60000
 
 def gen_case(rng, tier):
     cfg = TIERS[tier]
+    mode = rng.choice(["planted", "planted", "noisy", "noisy", "wild", "excess", "crowded", "near_tie"])
     r = rng.random()
-    if r < 0.3:
+    if mode == "crowded":
+        # needs a site with several catalogued core alternatives
+        gene = {"kind": "world", "world": SL.gen_stage_world(rng, multiallelic="core")}
+    elif r < 0.3:
         gene = {"kind": "toy", "genome": rng.choice(["hg19", "hg38"])}
     elif r < 0.92 or not cfg["shipped"]:
         gene = {"kind": "world", "world": SL.gen_stage_world(rng)}
     else:
         gene = {"kind": "shipped", "name": rng.choice(cfg["shipped"]), "genome": rng.choice(["hg19", "hg38"])}
     return {"gene": gene, "seed": rng.randint(0, 10**9), "gap": rng.choice([0, 0, 0.1, 0.5]),
-            "mode": rng.choice(["planted", "planted", "noisy", "noisy", "wild", "excess", "crowded", "near_tie"]),
+            "mode": mode,
             "depth": rng.choice([10, 20, 30]), "max_copies": rng.choice([2, 3, 3, 4])}
 
 
